@@ -201,7 +201,33 @@ struct Replacement {
     insert_index: usize,
 }
 
-fn expand(exprs: &mut Vec<SExpr>, templates: &[Template], _lsp_hints: &mut LspHints) -> Result<()> {
+/// Upper bound for the number of expansions done while loading one configuration.
+/// This is far beyond what a real configuration needs;
+/// it exists so that loading always terminates.
+const MAX_EXPANSIONS: u32 = 100_000;
+
+#[derive(Default)]
+struct ExpansionTracker<'a> {
+    /// Names of the templates that are in the middle of being expanded.
+    active: Vec<&'a str>,
+    total_expansions: u32,
+}
+
+fn expand(exprs: &mut Vec<SExpr>, templates: &[Template], lsp_hints: &mut LspHints) -> Result<()> {
+    expand_tracked(
+        exprs,
+        templates,
+        lsp_hints,
+        &mut ExpansionTracker::default(),
+    )
+}
+
+fn expand_tracked<'a>(
+    exprs: &mut Vec<SExpr>,
+    templates: &'a [Template],
+    _lsp_hints: &mut LspHints,
+    tracker: &mut ExpansionTracker<'a>,
+) -> Result<()> {
     let mut replacements: Vec<Replacement> = vec![];
     loop {
         for (expr_index, expr) in exprs.iter_mut().enumerate() {
@@ -212,7 +238,7 @@ fn expand(exprs: &mut Vec<SExpr>, templates: &[Template], _lsp_hints: &mut LspHi
                         l.t.first().and_then(|expr| expr.atom(None)),
                         Some("template-expand") | Some("t!")
                     ) {
-                        expand(&mut l.t, templates, _lsp_hints)?;
+                        expand_tracked(&mut l.t, templates, _lsp_hints, tracker)?;
                         continue;
                     }
 
@@ -244,6 +270,24 @@ fn expand(exprs: &mut Vec<SExpr>, templates: &[Template], _lsp_hints: &mut LspHi
                     if l.t.len() - 2 != template.vars.len() {
                         bail_span!(l, "template-expand of {} needs {} parameters but instead found {}.\nParameters: {}",
                     &template.name, template.vars.len(), l.t.len() - 2, template.vars.join(" "));
+                    }
+
+                    // The check of names in deftemplate ensures that a template only expands
+                    // templates that are defined earlier, but only for expansions written
+                    // literally. An expansion can also be formed through variable substitution.
+                    if tracker.active.contains(&template.name.as_str()) {
+                        bail_span!(
+                            l,
+                            "template {} is expanded within its own expansion.\nRecursive template expansion is not allowed.",
+                            &template.name
+                        );
+                    }
+                    tracker.total_expansions += 1;
+                    if tracker.total_expansions > MAX_EXPANSIONS {
+                        bail_span!(
+                            l,
+                            "exceeded the limit of {MAX_EXPANSIONS} template expansions; does a template expand itself?"
+                        );
                     }
 
                     let var_substitutions = l.t.iter().skip(2);
@@ -286,6 +330,14 @@ fn expand(exprs: &mut Vec<SExpr>, templates: &[Template], _lsp_hints: &mut LspHi
                     });
 
                     while evaluate_conditionals(&mut expanded_template)? {}
+
+                    // Expand what the template itself expands while this template is marked as
+                    // being expanded.
+                    tracker.active.push(&template.name);
+                    let nested_result =
+                        expand_tracked(&mut expanded_template, templates, _lsp_hints, tracker);
+                    tracker.active.pop();
+                    nested_result?;
 
                     replacements.push(Replacement {
                         insert_index: expr_index,
